@@ -378,3 +378,81 @@ Proof.
   - rewrite Hpp, (Hpy b Hbn). lra.
   - rewrite Hpp, (Hpy c Hcn). lra.
 Qed.
+
+(** ** the degenerate branch ([|n|^2 < EPSILON^2]): best of the three edges.
+    PARTIAL: the result lies in the hull of the returned subset and is within EPSILON of the
+    minimum over the three EDGES; nothing is claimed about interior points of the triangle
+    (for an exactly degenerate triangle the edges are the whole hull, but a small
+    non-degenerate triangle, edge < ~1.5e-8, also lands here: known finding C18-JOLT-EPS-ABS). *)
+Lemma line_facts (a b : V3R) p s t :
+  @closest_point_line_t R ROps a b = (p, s, t) ->
+  (s = 1%N \/ s = 2%N \/ s = 3%N) /\ conv_hull (update_simplex_y [a; b] 2 s) p /\
+  (forall x, conv_hull [a; b] x -> norm p <= norm x + eps).
+Proof.
+  intros E. pose proof (jolt_line_correct a b) as H. cbv zeta in H.
+  unfold closest_point_line in H. rewrite E in H. cbn [fst snd] in H.
+  destruct H as (H1 & H2 & _ & _ & H5). auto.
+Qed.
+
+Lemma norm_le_of_sq_le (p q : V3R) : dot p p <= dot q q -> norm p <= norm q.
+Proof. apply norm_le_of_sq. Qed.
+
+Theorem jolt_triangle_degenerate_partial (a b c : V3R) :
+  dot (cross (vsub b a) (vsub c a)) (cross (vsub b a) (vsub c a)) < eps * eps ->
+  let r := @closest_point_triangle R ROps a b c in
+  tri_set_ok (snd r) /\
+  conv_hull (update_simplex_y [a; b; c] 3 (snd r)) (fst r) /\
+  conv_hull [a; b; c] (fst r) /\
+  forall x, (conv_hull [a; b] x \/ conv_hull [a; c] x \/ conv_hull [b; c] x) ->
+            norm (fst r) <= norm x + eps.
+Proof.
+  intros Hn.
+  unfold closest_point_triangle, closest_point_triangle_t.
+  rewrite eps_sqr. cbn [ltb leb ROps zero one add sub mul div opp].
+  rewrite cross_ab_bc.
+  set (n := cross (vsub b a) (vsub c a)) in *.
+  assert (En : (if Rltb (dot (vsub c b) (vsub c b)) (dot (vsub c a) (vsub c a)) then n else n) = n)
+    by (destruct (Rltb _ _); reflexivity).
+  rewrite En. clear En.
+  replace (Rltb (dot n n) (eps * eps)) with true by (symmetry; apply Rltb_true; exact Hn).
+  destruct (closest_point_line_t a b) as [[p1 s1] t1] eqn:E1.
+  destruct (closest_point_line_t a c) as [[p2 s2] t2] eqn:E2.
+  destruct (closest_point_line_t b c) as [[p3 s3] t3] eqn:E3.
+  destruct (line_facts _ _ _ _ _ E1) as (S1 & H1 & M1).
+  destruct (line_facts _ _ _ _ _ E2) as (S2 & H2 & M2).
+  destruct (line_facts _ _ _ _ _ E3) as (S3 & H3 & M3).
+  (* hull facts for every possible bit set *)
+  assert (Hab : forall x, conv_hull [a; b] x -> conv_hull [a; b; c] x)
+    by (apply conv_hull_incl; intros v [<-|[<-|[]]]; simpl; auto).
+  assert (Hac : forall x, conv_hull [a; c] x -> conv_hull [a; b; c] x)
+    by (apply conv_hull_incl; intros v [<-|[<-|[]]]; simpl; auto).
+  assert (Hbc : forall x, conv_hull [b; c] x -> conv_hull [a; b; c] x)
+    by (apply conv_hull_incl; intros v [<-|[<-|[]]]; simpl; auto).
+  assert (G1 : conv_hull [a; b; c] p1 /\ conv_hull (update_simplex_y [a; b; c] 3 s1) p1).
+  { destruct S1 as [->|[->| ->]]; cbn in H1 |- *; split; auto;
+      apply Hab; revert H1; apply conv_hull_incl; intros v Hv; simpl in *; tauto. }
+  assert (G2 : conv_hull [a; b; c] p2 /\
+               conv_hull (update_simplex_y [a; b; c] 3 (N.land s2 1 + N.shiftl (N.land s2 2) 1)) p2).
+  { destruct S2 as [->|[->| ->]]; cbn in H2 |- *; split; auto;
+      apply Hac; revert H2; apply conv_hull_incl; intros v Hv; simpl in *; tauto. }
+  assert (G3 : conv_hull [a; b; c] p3 /\ conv_hull (update_simplex_y [a; b; c] 3 (N.shiftl s3 1)) p3).
+  { destruct S3 as [->|[->| ->]]; cbn in H3 |- *; split; auto;
+      apply Hbc; revert H3; apply conv_hull_incl; intros v Hv; simpl in *; tauto. }
+  assert (K2 : tri_set_ok (N.land s2 1 + N.shiftl (N.land s2 2) 1))
+    by (destruct S2 as [->|[->| ->]]; cbn; unfold tri_set_ok; auto 10).
+  assert (K3 : tri_set_ok (N.shiftl s3 1))
+    by (destruct S3 as [->|[->| ->]]; cbn; unfold tri_set_ok; auto 10).
+  assert (K1 : tri_set_ok s1) by (destruct S1 as [->|[->| ->]]; unfold tri_set_ok; auto 10).
+  destruct G1 as [G1a G1b]. destruct G2 as [G2a G2b]. destruct G3 as [G3a G3b].
+  (* the two comparisons *)
+  destruct (Rltb (dot p2 p2) (dot p1 p1)) eqn:C2; [apply Rltb_true in C2|apply Rltb_false in C2];
+  [destruct (Rltb (dot p3 p3) (dot p2 p2)) eqn:C3|destruct (Rltb (dot p3 p3) (dot p1 p1)) eqn:C3];
+  [apply Rltb_true in C3|apply Rltb_false in C3|apply Rltb_true in C3|apply Rltb_false in C3];
+  cbn [fst snd]; (split; [assumption|]); (split; [assumption|]); (split; [assumption|]);
+  intros x [Hx|[Hx|Hx]];
+  match goal with
+  | |- norm ?p <= _ =>
+    pose proof (norm_le_of_sq_le p p1); pose proof (norm_le_of_sq_le p p2); pose proof (norm_le_of_sq_le p p3)
+  end;
+  try specialize (M1 x Hx); try specialize (M2 x Hx); try specialize (M3 x Hx); lra.
+Qed.
